@@ -340,6 +340,7 @@ pub struct Family {
     pub simp: bool,
     pub dens: u64,
     pub mat: Option<[i64; 4]>,
+    pub origin: P,
 }
 
 /// Draw the parameters of an operand pair of the named family.
@@ -357,6 +358,7 @@ pub fn family(name: &str, kmax: i64, rng: &mut Rng) -> Family {
     let dens = *rng.pick(&[30u64, 50, 50, 70]);
     let (mode_a, mode_b, cell, shift) = match base {
         "rect" => (4, 4, 2, (0, 0)),
+        "rectw" => (4, 4, 1, (0, 0)),
         "cx" => {
             let m = *rng.pick(&[0u32, 1, 2, 3]);
             (m, m, 2, (0, 0))
@@ -381,12 +383,13 @@ pub fn family(name: &str, kmax: i64, rng: &mut Rng) -> Family {
         _ => panic!("unknown family {}", name),
     };
     let mat = if aff { Some(*rng.pick(&MATS)) } else { None };
-    Family { name: name.to_string(), kx, ky, mode_a, mode_b, cell, shift, simp, dens, mat }
+    let (kx, ky, origin) = if base == "rectw" { (kx + rng.range(0, 3), ky + rng.range(0, 3), (rng.range(-40, 40), rng.range(-40, 40))) } else { (kx, ky, (0, 0)) };
+    Family { name: name.to_string(), kx, ky, mode_a, mode_b, cell, shift, simp, dens, mat, origin }
 }
 
 /// canonical polygons (exterior CCW, holes CW, unclosed) of a random operand of the family
 pub fn operand(f: &Family, second: bool, rng: &mut Rng) -> Vec<(Vec<P>, Vec<Vec<P>>)> {
-    let (mode, off) = if second { (f.mode_b, f.shift) } else { (f.mode_a, (0, 0)) };
+    let (mode, off) = if second { (f.mode_b, (f.shift.0 + f.origin.0, f.shift.1 + f.origin.1)) } else { (f.mode_a, f.origin) };
     let tris = complex(f.kx, f.ky, mode, f.cell, off);
     let sel = select(tris.len(), mode, f.dens, rng);
     let polys = group(rings(&tris, &sel), f.simp);
